@@ -123,5 +123,6 @@ Definition sign (sk : F) (hs : hasher) (hpt : E1) : option herr * list N :=
   | None => (None, enc1 (smul1 sk hpt))
   end.
 
-Definition public_key (sk : F) : pubkey := mk_pubkey (pk_of sk).
+(* computePublicKey (bls.go): the point is sk*g2 and the identity flag is cached from the SCALAR *)
+Definition public_key (sk : F) : pubkey := {| pk_point := pk_of sk; pk_is_identity := feqb sk f0 |}.
 End Bls.
